@@ -507,7 +507,10 @@ fn main() {
     let big_cfg = gen::GenCfg { max_insns: 400, max_methods: 3, ..gen::GenCfg::default() };
     let n = ctx.tier.pick(20_000, 160_000);
     run_cases(&ctx, &replay, &mut rep, "generated", n, |rng, rep, i| {
-        let m = if i % 16 == 15 { gen::gen_class(rng, &big_cfg) } else { gen::gen_class(rng, &cfg) };
+        let mut m = if i % 16 == 15 { gen::gen_class(rng, &big_cfg) } else { gen::gen_class(rng, &cfg) };
+        // every fifth class with names / descriptors / strings redrawn from cf::hostile
+        if rng.chance(1, 5) { let lm = if rng.chance(1, 25) { 5000 } else { 60 }; for t in cf::hostile::hostilise(rng, &mut m, (1, 3), lm) { rep.seen("hostile_names", t); } rep.count("shape.hostile_names"); }
+        let m = m;
         let feats = features::features(&m);
         let mut any = false;
         for li in 0..2u64 {
